@@ -195,6 +195,9 @@ int fclose(FILE *fp) {
   int r = real(fp);
   sim::event(sim::K_FCLOSE, fileid, writing);
   g_env->file_event(proc, fileid, "close", 0);
+  // POSIX: closing ANY descriptor of a file drops all record locks the process holds on it,
+  // also one that was opened through a stream
+  if (fileid == FILE_LOCK) drop_locks(proc, 3);
   return r;
 }
 
